@@ -290,6 +290,9 @@ def run(repo, rep):
     rep.rule('C06.S5', 'all command fragments precede all data fragments; every PDV carries the pc_id parameter and the control '
              'byte + bytes of the same fragment; one PDV per PDU', 1)
     rep.rule('C06.S6', 'fragment and fragment_file agree on width expression and flag use', 1)
+    rep.rule('C06.S8', 'the two codecs every fragment passes through (P-DATA-TF PDU, presentation data value item) emit the '
+             'standard layout -- type, lengths, unsigned context id, the fragment bytes -- on every encoder path, special-case '
+             'paths included (the C02 rules restricted to these classes)', 8)
     rep.rule('C06.S7', 'the only caller of DIMSEMessage.encode is Association.send, passing the association\'s negotiated maximum', 1)
 
     # ---------------------------------------------------------------- bytes fragmenter (S2, S3): producer and consumer fused
@@ -395,7 +398,7 @@ def run(repo, rep):
     # ---------------------------------------------------------------- encode (S4, S5)
     enc = repo.func('dimsemessages', 'DIMSEMessage.encode')
     rep.analysed(enc)
-    c = SymClient(repo, enc, event_of=ev_kind, hierarchy=hier)
+    c = SymClient(repo, enc, event_of=ev_kind, hierarchy=hier, inline=repo.is_helper)
     fin = c.final_states(c.run(empty_state()))
     pc_param, max_param = enc.params[1], enc.params[2]
     p4, p5 = [], []
@@ -406,7 +409,14 @@ def run(repo, rep):
             data_seen_on_path = any(e.kind in ('fragment', 'fragment_file') and 'data_set' in e.args[0] for e in s.trail)
             if ev.kind in ('fragment', 'fragment_file'):
                 src = ev.args[0]
-                flags = tuple(ev.args[2:4])
+
+                def _fold_flag(t):
+                    from ..arith import CannotEvaluate, eval_term
+                    try:
+                        return str(eval_term(ast.parse(t, mode='eval').body, {}))
+                    except (CannotEvaluate, SyntaxError, Exception):
+                        return t
+                flags = tuple(_fold_flag(x) for x in ev.args[2:4])
                 if src.startswith('dsutils.encode(self.command_set'):
                     seen_cmd = True
                     if ev.kind != 'fragment' or flags != tuple(str(x) for x in CMD_FLAGS):
@@ -490,6 +500,11 @@ def run(repo, rep):
               'command (1,3), data (0,2) for bytes and file data sets', '; '.join(sorted(set(p4))))
     rep.check(not p5, 'C06.S5', 'dimsemessages:DIMSEMessage.encode:order-context', enc.loc(),
               'command before data; pc_id, control byte and fragment of the same iteration; one PDV per PDU', '; '.join(sorted(set(p5))))
+
+    # ---------------------------------------------------------------- S8
+    from ..codec_rules import check_wire
+    check_wire(lx, rep, prefix='C06', only=('PDataTfPDU', 'PresentationDataValueItem'),
+               rule_map={'L1': 'S8', 'L2': 'S8', 'L3': 'S8', 'L5': 'S8'})
 
     # ---------------------------------------------------------------- S7
     sites = []
